@@ -7,7 +7,7 @@ HOOKS = dict(
     add_only=True,
 )
 ENGINES = [
-    dict(name="verus-units", path="/verif/vk/verus_unit.py", serves_properties=["C01", "C02", "C03", "C10", "C15"],
+    dict(name="verus-units", path="/verif/vk/verus_unit.py", serves_properties=["C01", "C02", "C03", "C10", "C13", "C15", "C19"],
          kind_free_text="mechanical extraction of the real functions (vk/extract.py, rules R1-R8) + contracts/<unit>.vc, discharged by Verus 0.2026.09.13 / Z3; "
                         "every diagnostic is mapped back to a named obligation (function::label)"),
 ]
@@ -41,6 +41,24 @@ CHECKS = {
         level_note="notify_watchers and the removed-loop are TRUSTED to append exactly one record (their try_send loops are not verified). Subscription windows, "
                    "watch/unwatch/disconnect races, delivery on full channels and 'ends up current' are NOT decided.",
     ),
+    "C13": dict(
+        engine="verus-units", design_ref="DESIGN.md §5 C13", technique="deductive verification (Verus/Z3) of function contracts on extracted real code",
+        text="Single-call clauses, single node, for all states: the Arbiter branch of try_resolve_conflict_response either refuses and changes nothing (no arbiter "
+             "registered) or keeps the key's pre-conflict value and disk state, marks it in-conflict, records a pending notice under the $conflicts_ key, hands "
+             "exactly one notice to the arbiter and touches no other key; resolve_conflit marks the notice resolved, stores the arbiter's value, and leaves the "
+             "in-conflict state exactly when the (trusted) listing reports nothing else pending. set_key_value / apply_change_to_db_try_fix_conflicts carry the "
+             "clause 'a refused write never changes the key' to the client-facing entry point.",
+        level_note="Trusted: the $conflicts_ listing (iterator pipeline), the arbiter send loop, format! texts (uninterpreted with three axioms). NOT decided: "
+                   "queue order across several writes, redelivery on arbiter reconnect (register_arbiter), multi-node resolve path, replicas.",
+    ),
+    "C19": dict(
+        engine="verus-units", design_ref="DESIGN.md §5 C19", technique="deductive verification (Verus/Z3) of function contracts on extracted real code",
+        text="Sequential half, for all states and versions: on a newer-strategy database set_key_value / apply_change_to_db_try_fix_conflicts / "
+             "try_resolve_conflict_response never refuse a write (below i32::MAX), the reply names the value actually stored, the incoming value wins exactly when "
+             "its op id is newer, the stored version never decreases and strictly grows when the value is replaced, watchers get exactly one record iff the "
+             "stored value was replaced, and no other key is touched.",
+        level_note="Two concurrent clients and replica agreement are NOT decided. The inner re-application goes through set_value's contract (modular).",
+    ),
     "C15": dict(
         engine="verus-units", design_ref="DESIGN.md §5 C15", technique="deductive verification (Verus/Z3) of function contracts and a state invariant on extracted real code",
         text="Unbounded proof over all states: ReplicationMessage::{new,ack,replicated,is_full_acknowledged,get_copy} and "
@@ -69,11 +87,9 @@ NOT_APPLICABLE = {
     "C09": "contract not completed yet (in progress)",
     "C11": "Crash points of a writer are not expressible as pre/postconditions of a call; neither verifier has a crash-consistent file model.",
     "C12": "contract not completed yet (in progress)",
-    "C13": "contract not completed yet (in progress)",
     "C14": "A bound on inter-node traffic is a global ranking argument over the dispatcher and the replication loop on several nodes.",
     "C16": "contract not completed yet (in progress)",
     "C17": "The counter's balance is decided in the use-db arm of the dispatcher (previous selection is not released there); inc/dec/left contracts alone do not carry the property.",
     "C18": "Both S3 strategies are async AWS-SDK network code inside a tokio runtime.",
-    "C19": "contract not completed yet (in progress)",
     "C20": "Alignment depends on which handlers push on the client channel while also returning an error - a fact about the dispatcher; process_commands alone cannot be given a contract that is not an assumption of the conclusion.",
 }
